@@ -241,6 +241,38 @@ func checkC14(c *Check) {
 	for _, wh := range whs {
 		arg := wh.Common().Args[0]
 		pos := p.Pos(wh.Pos())
+		// a status that travels next to a "has status" flag (two results of a selection helper): where the flag is
+		// true the status is the value that was chosen together with it
+		if ph, isPhi := strip(arg).(*ssa.Phi); isPhi {
+			for _, in2 := range ph.Block().Instrs {
+				fl, isFl := in2.(*ssa.Phi)
+				if !isFl || fl == ph || len(fl.Edges) != len(ph.Edges) {
+					continue
+				}
+				if bt, isB := fl.Type().Underlying().(*types.Basic); !isB || bt.Kind() != types.Bool {
+					continue
+				}
+				onFlag := edgesWhere(lit, cBool(vIs(fl)), true)
+				if g, _ := guardedBy(lit, onFlag, isInstr(wh)); !g || len(onFlag) == 0 {
+					continue
+				}
+				var chosen ssa.Value
+				same := true
+				for i, e := range fl.Edges {
+					if vConstBool(false)(e) {
+						continue
+					}
+					if chosen == nil {
+						chosen = ph.Edges[i]
+					} else if strip(chosen) != strip(ph.Edges[i]) {
+						same = false
+					}
+				}
+				if chosen != nil && same {
+					arg = chosen
+				}
+			}
+		}
 		switch {
 		case vConstInt(500)(arg):
 			n500++
